@@ -74,4 +74,57 @@ theorem bestRun_rfc5952 (gs : List Nat) (h : gs.length = 8) :
     · exact ⟨hle, by omega⟩
     · exact ⟨hle, fun _ => hi⟩
 
+/-! ### one group (RFC 5952 §4.1, §4.3) -/
+
+theorem hexDigitVal_hexChar : ∀ d, d < 16 → hexDigitVal (V6.hexChar d) = d ∧
+    ((48 ≤ V6.hexChar d ∧ V6.hexChar d ≤ 57) ∨ (97 ≤ V6.hexChar d ∧ V6.hexChar d ≤ 102)) ∧
+    (V6.hexChar d = 48 ↔ d = 0) := by decide
+
+/-- RFC 5952 §4.1, §4.3 for one group: one to four characters from `0-9a-f`, no leading zero unless the text is "0",
+    and the text denotes the group's value -/
+theorem hexNumeral_form (v : Nat) (h : v < 65536) :
+    1 ≤ (hexNumeral v).length ∧ (hexNumeral v).length ≤ 4 ∧
+    (∀ c ∈ hexNumeral v, (48 ≤ c ∧ c ≤ 57) ∨ (97 ≤ c ∧ c ≤ 102)) ∧
+    ((hexNumeral v).head? = some 48 → hexNumeral v = [48]) ∧ groupVal (hexNumeral v) = v := by
+  rw [← fmtHex_eq_hexNumeral v h]
+  unfold V6.fmtHex
+  have e1 := hexDigitVal_hexChar (v % 16) (by omega)
+  have e2 := hexDigitVal_hexChar (v / 16 % 16) (by omega)
+  have e3 := hexDigitVal_hexChar (v / 256 % 16) (by omega)
+  have e4 := hexDigitVal_hexChar (v / 4096 % 16) (by omega)
+  by_cases h1 : v < 16
+  · have e := hexDigitVal_hexChar v h1
+    simp only [h1, if_true, List.length_singleton, List.mem_singleton, List.head?_cons, Option.some.injEq, groupVal,
+      List.foldl_cons, List.foldl_nil]
+    refine ⟨by omega, by omega, ?_, ?_, by omega⟩
+    · intro c hc; subst hc; exact e.2.1
+    · intro hh; rw [hh]
+  · by_cases h2 : v < 256
+    · have e := hexDigitVal_hexChar (v / 16) (by omega)
+      simp only [h1, h2, if_true, if_false, List.length_cons, List.length_nil, List.mem_cons, List.not_mem_nil, or_false,
+        List.head?_cons, Option.some.injEq, groupVal, List.foldl_cons, List.foldl_nil]
+      refine ⟨by omega, by omega, ?_, ?_, by omega⟩
+      · rintro c (hc | hc) <;> subst hc
+        · exact e.2.1
+        · exact e1.2.1
+      · intro hh; have := e.2.2.mp hh; omega
+    · by_cases h3 : v < 4096
+      · have e := hexDigitVal_hexChar (v / 256) (by omega)
+        simp only [h1, h2, h3, if_true, if_false, List.length_cons, List.length_nil, List.mem_cons, List.not_mem_nil,
+          or_false, List.head?_cons, Option.some.injEq, groupVal, List.foldl_cons, List.foldl_nil]
+        refine ⟨by omega, by omega, ?_, ?_, by omega⟩
+        · rintro c (hc | hc | hc) <;> subst hc
+          · exact e.2.1
+          · exact e2.2.1
+          · exact e1.2.1
+        · intro hh; have := e.2.2.mp hh; omega
+      · simp only [h1, h2, h3, if_false, List.length_cons, List.length_nil, List.mem_cons, List.not_mem_nil,
+          or_false, List.head?_cons, Option.some.injEq, groupVal, List.foldl_cons, List.foldl_nil]
+        refine ⟨by omega, by omega, ?_, ?_, by omega⟩
+        · rintro c (hc | hc | hc | hc) <;> subst hc
+          · exact e4.2.1
+          · exact e3.2.1
+          · exact e2.2.1
+          · exact e1.2.1
+        · intro hh; have := e4.2.2.mp hh; omega
 end Tins.Addr
